@@ -189,6 +189,7 @@ func wrote(t, wr any) string {
 }
 
 type step struct {
+	either   map[int]bool   // may or may not terminate in this step; not judged if it does
 	expected map[int][]note // per live consumer
 	causes   map[any]string // target -> cause class
 	dead     map[int]error  // processes that die in this step -> reason; primary has cascade=false
@@ -196,7 +197,7 @@ type step struct {
 }
 
 func newStep() *step {
-	return &step{expected: map[int][]note{}, causes: map[any]string{}, dead: map[int]error{}, cascade: map[int]bool{}}
+	return &step{either: map[int]bool{}, expected: map[int][]note{}, causes: map[any]string{}, dead: map[int]error{}, cascade: map[int]bool{}}
 }
 
 // targetGone: model the disappearance of one target
@@ -283,9 +284,21 @@ func (w *world) settle(s *step, what string) {
 	for i := range s.dead {
 		w.ps[i].maybe = s.cascade[i]
 	}
+	for i := range s.either {
+		w.ps[i].alive, w.ps[i].maybe = false, true
+	}
 	quiet := waitQuiet(w.ps)
 	for i := range s.dead {
 		w.ps[i].maybe = false
+	}
+	for i := range s.either {
+		o := w.ps[i]
+		o.maybe = false
+		if quiet && !isGone(o) {
+			o.alive = true // survived: judged like any live observer (expects nothing)
+		} else {
+			s.dead[i] = nil // terminated: not judged
+		}
 	}
 	if !quiet {
 		w.r.incon = "watchdog: no quiescence after " + what
@@ -791,6 +804,75 @@ func (w *world) opSpawn() {
 	w.settle(newStep(), fmt.Sprintf("p%d spawn", parent.idx))
 }
 
+// opSpawnInitFail: a live observer spawns a process whose Init spawns 1-3 children (random LinkChild /
+// LinkParent) and then fails (error / wrapped error / panic). The failing process goes away unregistered:
+// children holding a link on it must follow with the init error, unlinked children stay and get nothing.
+func (w *world) opSpawnInitFail() {
+	if len(w.ps) >= 8 {
+		w.opRelate()
+		return
+	}
+	parent := w.pickAlive()
+	plan := &initPlan{}
+	var initErr error
+	mode := []string{"error", "wrapped", "panic"}[w.rng.Intn(3)]
+	switch mode {
+	case "error":
+		plan.Fail = errors.New(fmt.Sprintf("c04 init error %d", w.step))
+		initErr = plan.Fail
+	case "wrapped":
+		plan.Fail = fmt.Errorf("c04 init wrapper: %w", errors.New(fmt.Sprintf("c04 init inner %d", w.step)))
+		initErr = plan.Fail
+	case "panic":
+		plan.Panic = true
+		initErr = gen.TerminateReasonPanic
+	}
+	nk := 1 + w.rng.Intn(3)
+	if len(w.ps)+nk > 10 {
+		nk = 1
+	}
+	for i := 0; i < nk; i++ {
+		plan.Children = append(plan.Children, newChildSpec(fmt.Sprintf("%s/p%d", w.id, len(w.ps)+i), w.rng.Intn(2) == 0, w.rng.Intn(2) == 0))
+	}
+	ff, _ := actors.NewProbe(fmt.Sprintf("%s/failing%d", w.id, w.step), observerHooks())
+	po := gen.ProcessOptions{LinkChild: w.rng.Intn(2) == 0, LinkParent: w.rng.Intn(3) == 0}
+	rr, ok := doSpawn(parent, cmd{Factory: ff, PO: po}, plan)
+	if !ok {
+		w.r.incon = "watchdog: command did not return"
+		w.abort = true
+		return
+	}
+	w.events++
+	if rr.Err == nil {
+		w.r.incon = "harness: the spawn of a process with a failing Init returned nil"
+		w.abort = true
+		return
+	}
+	s := newStep()
+	var kinds []string
+	for _, cs := range plan.Children {
+		if cs.Err != nil {
+			kinds = append(kinds, "spawn-error:"+cs.Err.Error())
+			continue
+		}
+		o := &obs{idx: len(w.ps), label: cs.Inst.Label, pid: cs.PID, inst: cs.Inst, alive: true, parent: -2}
+		w.ps = append(w.ps, o)
+		kinds = append(kinds, fmt.Sprintf("p%d:%s", o.idx, cs.linkKind()))
+		switch cs.linkKind() {
+		case "linkparent", "both":
+			// follows the failed parent: the exit signal of the parent cannot be trapped
+			o.alive = false
+			s.dead[o.idx] = initErr
+			s.cascade[o.idx] = true
+		case "linkchild":
+			s.either[o.idx] = true
+		}
+	}
+	w.logf("p%d spawn linkchild=%v linkparent=%v of a process whose Init spawns %v and then fails (%s: %v) -> %v", parent.idx, po.LinkChild, po.LinkParent, kinds, mode, initErr, rr.Err)
+	s.causes["init-failure"] = "init-" + mode
+	w.settle(s, fmt.Sprintf("p%d spawned a process whose Init spawned %v and failed with %v", parent.idx, kinds, initErr))
+}
+
 func (w *world) opTerminate() {
 	o := w.pickAlive()
 	if len(w.alive()) <= 2 && w.rng.Intn(3) > 0 {
@@ -900,8 +982,10 @@ func runHistory(k int) {
 			w.opRegEvent()
 		case x < 81:
 			w.opUnregEvent()
-		case x < 87:
+		case x < 85:
 			w.opSpawn()
+		case x < 88:
+			w.opSpawnInitFail()
 		default:
 			w.opTerminate()
 		}
